@@ -392,20 +392,22 @@ impl Xot {
             // already in the requested position: nothing to do
             return Ok(());
         }
-        self.remove_consolidate_text_nodes(
-            self.previous_sibling(new_sibling),
-            self.next_sibling(new_sibling),
-        );
+        // the text nodes around the old position are consolidated after the
+        // move: doing it first could merge away the reference node itself
+        let old_previous = self.previous_sibling(new_sibling);
+        let old_next = self.next_sibling(new_sibling);
         if self.add_consolidate_text_nodes(
             new_sibling,
             Some(reference_node),
             self.next_sibling(reference_node),
         ) {
+            self.remove_consolidate_text_nodes(old_previous, old_next);
             return Ok(());
         }
         reference_node
             .get()
             .checked_insert_after(new_sibling.get(), self.arena_mut())?;
+        self.remove_consolidate_text_nodes(old_previous, old_next);
         Ok(())
     }
 
@@ -422,20 +424,22 @@ impl Xot {
             // already in the requested position: nothing to do
             return Ok(());
         }
-        self.remove_consolidate_text_nodes(
-            self.previous_sibling(new_sibling),
-            self.next_sibling(new_sibling),
-        );
+        // the text nodes around the old position are consolidated after the
+        // move: doing it first could merge away the reference node itself
+        let old_previous = self.previous_sibling(new_sibling);
+        let old_next = self.next_sibling(new_sibling);
         if self.add_consolidate_text_nodes(
             new_sibling,
             self.previous_sibling(reference_node),
             Some(reference_node),
         ) {
+            self.remove_consolidate_text_nodes(old_previous, old_next);
             return Ok(());
         }
         reference_node
             .get()
             .checked_insert_before(new_sibling.get(), self.arena_mut())?;
+        self.remove_consolidate_text_nodes(old_previous, old_next);
         Ok(())
     }
 
